@@ -60,3 +60,24 @@ def c14():
                   "ref_ext": i + 1, "ref_copy_lit": i + 1, "ref_copy_match": o + 1, "ref_lz4": i // 3 + 2, "vh_bytes": i + 1, "vh_lz4": o + 1}
             qs.append(Q(f"lz4_in{i}_out{o}", "C14_lz4.cpp", "vh_lz4", {"IN": i, "OUT": o}, unwind=o + 3, unwindset=us, tiers=tiers))
     return qs
+
+# ------------------------------------------------------------------------------------------- C07
+META["C07"] = {
+    "bounds": "(a) each opcode body 0x00-0x18, 0x30-0x32, 0x3E-0x41, both code types, ALL 32-bit operand values and parameter bytes, any stack depth arity..1023; (c) all 67 opcode_table rows",
+    "outside": "DIV quotient VALUE (two 32-bit dividers / a 64-bit multiplier: no verdict within 240 s on minisat, cadical, kissat, z3, cvc5 with and without bv-as-int; its fail-safe clause, operand order of the guards and stack movement ARE decided for all operands); whole-text shaping equality of the two interpreter builds (only the driver-equivalence lemma is decided); programs longer than the stated instruction bound",
+    "assumptions": ["entry invariant: operands present on the stack (loader depth analysis, decided in C01/C02) and 0 <= sp-sb < STACK_MAX",
+                    "opcodes 0x3E/0x3F follow the engine's numbering (BITOR, BITAND); doc/OpCodes.adoc lists them swapped (DESIGN 7)"],
+}
+ARITH_OPS = list(range(0x00, 0x19)) + [0x30, 0x31, 0x32, 0x3E, 0x3F, 0x40, 0x41]
+@prop("C07")
+def c07():
+    qs = []
+    for op in ARITH_OPS:
+        for impl in (0, 1):
+            for d in (0, 1, 2):
+                defs = {"OPC": op, "IMPL": impl, "DEPTHSEL": d}
+                if op == 0x09: defs["DIVMODE"] = 0      # fail-safe clause + sp/dp movement on ALL operands; quotient value: see META outside
+                qs.append(Q(f"op{op:02x}_impl{impl}_d{d}", "C07_opcodes.cpp", "vh_opcode", defs, unwind=6,
+                            cbmc_flags=["--max-field-sensitivity-array-size", "2048"] + (["--sat-solver", "cadical"] if op == 0x08 else [])))
+    qs.append(Q("optable", "C07_opcodes.cpp", "vh_optable", unwind=4))
+    return qs
